@@ -10,6 +10,8 @@
    join / worker joins that copy() returns after). *)
 From XcpModel Require Import Base Meta Walker Ops ConcBlock ConcFile ConcOutcome.
 From XcpProofs Require Import OpsProofs ConcBlockProofs ConcFileProofs ConcOutcomeProofs.
+From XcpModel Require Import Extracted.
+From XcpProofs Require Import ExtractedOk.
 Local Open Scope nat_scope.
 
 Theorem C18_fsync_is_last_action : forall fc src dst e l,
@@ -58,8 +60,14 @@ Example C18_nonvacuous :
             last l (AStat (KSrc [])) = AFsync (KDst []).
 Proof. eexists. split; [vm_compute; reflexivity|reflexivity]. Qed.
 
+(* ---- tie to the current source (translator): the model's definitions used above are
+   EQUAL to what /verif/xlate extracts from the repository on this run ---- *)
+Theorem C18_src_fsync_is_last_step : exists pre, x_finalise_order = pre ++ [(10%N, false)] /\ forallb (fun s => negb (N.eqb (fst s) 10)) pre = true.
+Proof. exists (removelast x_finalise_order). split; vm_compute; reflexivity. Qed.
+
 Print Assumptions C18_fsync_is_last_action.
 Print Assumptions C18_finalise_after_every_write.
 Print Assumptions C18_every_file_finalised_once_parblock.
 Print Assumptions C18_every_file_finalised_once_parfile.
 Print Assumptions C18_no_handle_survives.
+Print Assumptions C18_src_fsync_is_last_step.
